@@ -1203,6 +1203,13 @@ func dumpStore(s *state.Store) []storedRow {
 }
 
 func chainCompiles(s *state.Store, svc string) (ok bool, msg string, hungNow bool) {
+	return chainCompilesIn(s, svc, "dc1", "")
+}
+
+// the other evaluation contexts a proxy can ask for: the guard test-compiles in dc1 without override only
+var otherContexts = [][2]string{{"dc2", ""}, {"dc1", "tcp"}, {"dc1", "http"}, {"dc2", "grpc"}}
+
+func chainCompilesIn(s *state.Store, svc, dc, ovr string) (ok bool, msg string, hungNow bool) {
 	type res struct {
 		ok  bool
 		msg string
@@ -1221,7 +1228,8 @@ func chainCompiles(s *state.Store, svc string) (ok bool, msg string, hungNow boo
 		}
 		_, err = discoverychain.Compile(discoverychain.CompileRequest{
 			ServiceName: svc, EvaluateInNamespace: "default", EvaluateInPartition: "default",
-			EvaluateInDatacenter: "dc1", EvaluateInTrustDomain: "11111111-2222-3333-4444-555555555555.consul", Entries: set,
+			EvaluateInDatacenter: dc, EvaluateInTrustDomain: "11111111-2222-3333-4444-555555555555.consul", Entries: set,
+			OverrideProtocol: ovr,
 		})
 		if err != nil {
 			ch <- res{false, err.Error()}
@@ -1311,6 +1319,7 @@ func runStoreCase(c *Case, universe []string) {
 	c.Oracle = ""
 	c.Sig = nil
 	broken := map[string]bool{}
+	brokenCtx := map[string]bool{}
 	const base = 100
 	for i := range c.Ops {
 		op := &c.Ops[i]
@@ -1383,9 +1392,27 @@ func runStoreCase(c *Case, universe []string) {
 				}
 			}
 			broken[x] = !ok
+			// a stored chain that compiles in the guard's context must compile in every context
+			if ok && c.Oracle == "" {
+				for _, cxo := range otherContexts {
+					ok2, msg2, h2 := chainCompilesIn(s, x, cxo[0], cxo[1])
+					if h2 {
+						c.Oracle = fmt.Sprintf("termination:chain-%s-did-not-compile-in-20s@%d", x, i)
+						c.Sig = map[string]interface{}{"kind": "termination"}
+						return
+					}
+					if !ok2 && !brokenCtx[x+"|"+cxo[0]+"|"+cxo[1]] {
+						c.Oracle = fmt.Sprintf("write-guard:chain-%s-compiles-in-dc1-but-not-in-dc=%s-override=%q@%d:%s", x, cxo[0], cxo[1], i, msg2)
+						c.Sig = map[string]interface{}{"kind": "context-dependent-chain", "dc": cxo[0], "override": cxo[1], "error": errClassOfMsg(msg2)}
+					}
+					brokenCtx[x+"|"+cxo[0]+"|"+cxo[1]] = !ok2
+				}
+			}
 		}
 	}
 }
+
+func errClassOfMsg(m string) int { return errCode(fmt.Errorf("%s", m)) }
 
 func (g *gen) storeOps() []Op {
 	var es []Entry
